@@ -163,6 +163,8 @@ def load_known():
     return json.load(open(p)).get("findings", [])
 
 def known_for(prop):
+    if os.environ.get("VERIF_IGNORE_KNOWN"):   # maintenance only (re-recording the replay of a known finding): never set by a registered command
+        return {}
     return {f["key"]: f for f in load_known() if f["property"] == prop and f.get("status") == "known"}
 
 # --------------------------------------------------------------------------- meta
